@@ -690,6 +690,17 @@ func (o *oracle) checkLeafProvenance(st *Store, e *ref.Entry, fail func(string, 
 	if !it.acceptsPreCert(e.PreCert) {
 		fail("leaf-precert", "leaf %d carries a different pre_certificate than submitted", e.Index)
 	}
+	// the entry may have been submitted with several valid chains: the leaf
+	// carries the fingerprints of one of them
+	for _, alt := range it.altIssuers {
+		match := len(alt) == len(e.Fingerprints)
+		for i := 0; match && i < len(alt); i++ {
+			match = sha256.Sum256(alt[i]) == e.Fingerprints[i]
+		}
+		if match {
+			return
+		}
+	}
 	if len(it.Entry.Issuers) != len(e.Fingerprints) {
 		fail("leaf-fingerprints", "leaf %d has %d fingerprints, submitted chain has %d issuers", e.Index, len(e.Fingerprints), len(it.Entry.Issuers))
 		return
